@@ -75,6 +75,11 @@ class Spec:
         self.objective = kw.pop("objective", [])           # list of (kind, E[, opts])
         self.initial = kw.pop("initial", [])
         self.initial_after = kw.pop("initial_after", 0)     # number of trailing guesses given AFTER the first transcription
+        # history (C13): what is declared only AFTER a first transcription was queried.  dict with optional keys
+        #   constraints: k   the last k constraints;  objective: k   the last k objective terms;
+        #   pvals: True      every parameter value is replaced by a new one;   method: True   the method is set again;
+        #   query: True      an extra query (sample) between the changes
+        self.late = kw.pop("late", None) or {}
         self.scales = kw.pop("scales", {})                 # 'x': value/list, 'u', 'z', 'v', 'der'
         self.param_values = kw.pop("param_values", "unknown")
         self.solver = kw.pop("solver", "ipopt")
@@ -218,8 +223,10 @@ class Spec:
                 val = unknown("pval_" + key, positive=(key == "T"))
                 self.pvals[key] = val
                 ocp.set_value(S["p_" + key], val)
+        self._late_ops = []
         # constraints
-        for c in self.constraints:
+        n_early_c = len(self.constraints) - min(len(self.constraints), self.late.get("constraints", 0))
+        for ci, c in enumerate(self.constraints):
             e = c.expr.on(self.atom)
             kw = {}
             if c.grid is not None:
@@ -230,24 +237,38 @@ class Spec:
                 c.scale_value = sc
             else:
                 c.scale_value = sc
-            ocp.subject_to(c.relation(e), include_first=c.include_first, include_last=c.include_last, scale=sc, **kw)
+            decl = lambda c=c, e=e, sc=sc, kw=kw: ocp.subject_to(c.relation(e), include_first=c.include_first, include_last=c.include_last, scale=sc, **kw)
+            decl() if ci < n_early_c else self._late_ops.append(decl)
         # objective
-        for term in self.objective:
+        n_early_o = len(self.objective) - min(len(self.objective), self.late.get("objective", 0))
+        for oi, term in enumerate(self.objective):
             kind, ex = term[0], term[1]
             opts = term[2] if len(term) > 2 else {}
             e = ex.on(self.atom)
             if kind == "at_t0":
-                ocp.add_objective(ocp.at_t0(e))
+                decl = lambda e=e: ocp.add_objective(ocp.at_t0(e))
             elif kind == "at_tf":
-                ocp.add_objective(ocp.at_tf(e))
+                decl = lambda e=e: ocp.add_objective(ocp.at_tf(e))
             elif kind == "sum":
-                ocp.add_objective(ocp.sum(e, **opts))
+                decl = lambda e=e, opts=opts: ocp.add_objective(ocp.sum(e, **opts))
             elif kind == "integral":
-                ocp.add_objective(ocp.integral(e, **opts))
+                decl = lambda e=e, opts=opts: ocp.add_objective(ocp.integral(e, **opts))
             elif kind == "value":
-                ocp.add_objective(e)
+                decl = lambda e=e: ocp.add_objective(e)
             else:
                 raise ValueError(kind)
+            decl() if oi < n_early_o else self._late_ops.append(decl)
+        if self.late.get("pvals"):
+            def new_values():
+                for kind in ("", "control", "control+"):
+                    for i, p in enumerate(S[("p", kind)]):
+                        cols = {"": 1, "control": self.N, "control+": self.N + 1}[kind]
+                        val = unknown("pval2_%s%d" % (kind.replace("+", "plus"), i), p.shape[0], p.shape[1] * cols)
+                        self.pvals[(kind, i)] = val
+                        ocp.set_value(p, val)
+            self._late_ops.append(new_values)
+        if self.late.get("method"):
+            self._late_ops.append(lambda: ocp.method(self.make_method()))
         # initial guesses
         self.initial_realised = []
         self._late = []
@@ -291,6 +312,14 @@ class Spec:
     def transcribe(self):
         """transcribe and return the method object of the transcribed copy"""
         self.ocp._transcribe() if False else self.ocp._transcribed
+        ops = list(getattr(self, "_late_ops", []))
+        self._late_ops = []
+        for n_, op in enumerate(ops):
+            op()                                  # declared after the first transcription: must reach the next one
+            if self.late.get("query") and n_ == 0:
+                self.ocp._transcribed
+        if ops:
+            self.ocp._transcribed
         for tgt, v in getattr(self, "_late", []):
             self.ocp.set_initial(tgt, v)         # guesses given after the first transcription (no re-transcription: the flag stays set)
         self._late = []
